@@ -171,7 +171,14 @@ type hist struct {
 	bStubs  []int
 	shared  bool
 	bad     bool
+	// clusterNames: the clusters of this history (for the attribution of probes)
+	clusterNames []string
 }
+
+func (h *hist) gwToken(cluster string) string { return fmt.Sprintf("gwt-c15-%d-%s", h.id, cluster) }
+
+// probesFrom returns the instants of the /healthz probes stub s received from this history's gateway for the cluster.
+func (h *hist) probesFrom(s int, cluster string) []int64 { return h.stubs[s].ProbesFrom(h.gwToken(cluster)) }
 
 func (h *hist) fail(reason string) {
 	h.bad = true
@@ -207,7 +214,10 @@ func (h *hist) clusterObjectWithPolicies(name, prefix string, policyStubs []int,
 		ps = append(ps, proxyv1alpha1.DispatchPolicy{Strategy: proxyv1alpha1.RoundRobin, UpstreamSubset: []string{h.stubs[s].URL}, Rules: userRule(fmt.Sprintf("%s-e%d", prefix, s))})
 	}
 	ps = append(ps, proxyv1alpha1.DispatchPolicy{Strategy: proxyv1alpha1.RoundRobin, Rules: userRule(prefix + "-any")})
-	return bed.BuildCluster(bed.ClusterSpec{Name: name, Servers: servers, Policies: ps})
+	// The gateway's credential for the cluster is unique in the whole run and constant across the history's updates:
+	// /healthz probes are attributed by it (stub ports are ephemeral and may be re-bound by a stub of another history while
+	// a checker of a closed gateway still probes the old address; two clusters of one history may list the same upstream).
+	return bed.BuildCluster(bed.ClusterSpec{Name: name, Servers: servers, Policies: ps, Token: h.gwToken(name)})
 }
 
 func (h *hist) open(st *stream) {
@@ -313,6 +323,15 @@ func (h *hist) close() {
 	case <-time.After(watchdog):
 		h.r.Inconclusive(fmt.Sprintf("history %d: client streams did not end after the harness cancelled them", h.id))
 	}
+	for _, s := range h.stubs {
+		own := 0
+		for _, c := range h.clusterNames {
+			own += len(s.ProbesFrom(h.gwToken(c)))
+		}
+		if n := s.ProbeCount() - own; n > 0 {
+			h.r.Count("observation_stray_probes_from_other_histories", n)
+		}
+	}
 	if tr, ok := h.client.Transport.(*http.Transport); ok {
 		tr.CloseIdleConnections()
 	}
@@ -375,6 +394,7 @@ func runHistory(r *vkit.R, id int, g *vkit.Rand, longWait bool, hungProbe bool) 
 		h.shared = g.Chance(0.3)
 	}
 	nameA, nameB := fmt.Sprintf("a%d.c15.test", id), fmt.Sprintf("b%d.c15.test", id)
+	h.clusterNames = []string{nameA, nameB}
 	e1 := h.aStubs[0]
 	objA := h.clusterObject(nameA, "a", h.aStubs)
 	// pre-history of the endpoint that will be removed: it was disabled at some point (created disabled, or disabled
@@ -560,10 +580,10 @@ func runHistory(r *vkit.R, id int, g *vkit.Rand, longWait bool, hungProbe bool) 
 	}
 	if hungProbe {
 		// a probe of the endpoint that is about to be removed hangs (the real checker gives up after 5 s)
-		n0 := h.stubs[e1].ProbeCount()
+		n0 := len(h.probesFrom(e1, nameA))
 		h.stubs[e1].SetHealth(bed.HealthHang)
 		retained[e1].TriggerHealthCheck()
-		if !vkit.WaitFor(watchdog, func() bool { return h.stubs[e1].ProbeCount() > n0 }) {
+		if !vkit.WaitFor(watchdog, func() bool { return len(h.probesFrom(e1, nameA)) > n0 }) {
 			h.fail("triggered probe did not reach the stub")
 			return
 		}
@@ -831,8 +851,9 @@ func runHistory(r *vkit.R, id int, g *vkit.Rand, longWait bool, hungProbe bool) 
 	}
 	latMu.Unlock()
 
-	// (c) no health probe reaches the removed target (unless another cluster lists the same upstream)
-	if !h.shared {
+	// (c) no health probe of cluster A reaches the removed target (probes are attributed by the cluster's credential, so
+	// this is also judged when cluster B lists the same upstream and keeps probing it)
+	{
 		if rest := tRemoved + int64(settle) + int64(10*time.Millisecond) - bed.Now(); rest > 0 {
 			time.Sleep(time.Duration(rest))
 		}
@@ -856,7 +877,7 @@ func runHistory(r *vkit.R, id int, g *vkit.Rand, longWait bool, hungProbe bool) 
 		now := bed.Now()
 		for _, s := range probed {
 			var late []float64
-			for _, t := range h.stubs[s].Probes() {
+			for _, t := range h.probesFrom(s, nameA) {
 				if t > tRemoved+int64(settle) && t < now {
 					late = append(late, float64(t-tRemoved)/1e6)
 				}
